@@ -402,8 +402,8 @@ func (c *stepCtx) stepDecode(k int, st map[string]interface{}) string {
 	us := time.Since(t0).Microseconds()
 	runtime.ReadMemStats(&ms1)
 	inpost := digestBytes(in)
-	head := fmt.Sprintf(`"ev":"Decode","ty":%q,"in":%s,"dest":%s,"orig":%d,"obs":{"inpre":%q,"inpost":%q,"alloc":%d,"us":%d,`,
-		ty, jbytes(in), destJSON, num(st, "orig", -1), inpre, inpost,
+	head := fmt.Sprintf(`"ev":"Decode","ty":%q,"in":%s,"dest":%s,"orig":%d,"hops":%d,"obs":{"inpre":%q,"inpost":%q,"alloc":%d,"us":%d,`,
+		ty, jbytes(in), destJSON, num(st, "orig", -1), num(st, "hops", 1), inpre, inpost,
 		c.quiet(clamp(ms1.TotalAlloc-ms0.TotalAlloc)), c.quiet(clamp(uint64(us))))
 	if pan != nil {
 		return head + panicObs(pan) + "}"
